@@ -31,6 +31,9 @@ type node struct {
 
 	// The current state of the runnable in this node.
 	state nodeState
+	// returned is set once the runnable's goroutine has returned and the processor has recorded that. A DONE node
+	// whose runnable has not returned yet (or whose death notice is still in flight) must not be restarted.
+	returned bool
 
 	// Backoff used to keep runnables from being restarted too fast.
 	bo *backoff.ExponentialBackOff
@@ -171,6 +174,7 @@ func (n *node) reset() {
 
 	// Clear children and state
 	n.state = nodeStateNew
+	n.returned = false
 	n.children = make(map[string]*node)
 	n.groups = nil
 
